@@ -47,3 +47,47 @@ TABLE["C16"] = {
     "level_text": "Theorems for all memories, all entry and fake addresses in each of the three entry cases: the word the literal load reads is the fake's address and BX reaches it in the right state; exactly 12 bytes at the Thumb-stripped entry are written. The callee-saved clause is proved FALSE of the code (C16_callee_full_false, witness replayed on the host-compiled bytes) and reported as known finding F6; the partial theorem bounds the damage to r9 / r7.",
     "level_note": "Trusted: Lean kernel, the A32/T32 fragment (not hardware-validated), translator, shadow build.",
 }
+
+HIST_PIPE = {"name": "hist", "cmd": ["hist"], "n_quick": 150, "n_thorough": 3000, "timeout": 900, "timeout_thorough": 3400}
+HIST_RULE = ("PRNG install/drop histories through the public API on synthetic functions: 5 address regions (0x10000, 1 GiB, 64 GiB, mid, top of user space), "
+             "12 targets per history incl. entries at page offsets 4093/4091 (page-crossing) and 16-byte-pitch neighbours, near and >4 GiB-far fakes, "
+             "kinds raw/unchecked/closure/fake!/func!/boolean, 1-3 lifetimes, repeated targets favoured, drop by scope exit or by unwinding; each history in a forked child. "
+             "Distinct by full line; non-trivial when the driver tags it with at least one of rep/cross/long-tramp/unwind")
+MACHINE_TB = TB_COMMON + [ISA_X86, "OS behaviour assumed: mmap returns a fresh zero-filled page-aligned region disjoint from existing mappings and from the target's entry bytes; mprotect/munmap do what they say; __clear_cache synchronises the given range (interposed by the shim, a no-op on x86-64)"]
+
+TABLE["C02"] = {
+    "pipelines": [HIST_PIPE],
+    "fail_keys": ["c02."],
+    "trusted_base": MACHINE_TB + ["Rust drop semantics (struct fields in declaration order after the Drop impl runs; Vec::pop order) as read by translate/layout.py"],
+    "rule": HIST_RULE,
+    "assumptions": ["freshness of trampoline mappings (FreshMaps) and disjointness from entry ranges, as the OS guarantees"],
+    "level_text": "Theorem C02_restores: for every install history (any length, repeated and overlapping targets, any payload kinds) the drop order extracted from the source (newest first) restores every byte outside the unmapped trampoline pages, the mapping set, and leaves no guard; proved by a LIFO induction. The model is replayed against real histories run through the public API (bytes of every entry, trampoline bytes, OS call sequence, call results before/after drop, drop by unwinding).",
+    "level_note": "Trusted: Lean kernel, translator's reading of the Drop impl, shadow build, /proc/self/maps and forked-child observation. Modelled not verified: all Rust code.",
+}
+TABLE["C03"] = {
+    "pipelines": [HIST_PIPE],
+    "fail_keys": ["c03."],
+    "trusted_base": MACHINE_TB,
+    "rule": HIST_RULE + "; C03 predicate: every arena byte outside the 16-byte slots of named targets equals its snapshot after every operation, never-named targets keep their bytes, hash of all r-x file-backed mappings unchanged after drop",
+    "assumptions": ["freshness of trampoline mappings"],
+    "level_text": "Theorems C03_frame_install / _drop / _lifetime: in every state reachable by installs and guard restores, a byte outside the named entry ranges [func, func+12) and outside the run's own trampoline pages is unchanged; C03_slot bounds every patch by 12 bytes. Correspondence: byte-level frame check of code arenas packed at 16-byte pitch and hash of program text and shared libraries.",
+    "level_note": "Trusted as for C02. mprotect leaves target pages rwx for good: a permission, not a byte, outside C03.",
+}
+TABLE["C12"] = {
+    "pipelines": [dict(HIST_PIPE, n_quick=150), {"name": "cycles", "cmd": ["cycles"], "n_quick": 2000, "n_thorough": 100000, "timeout": 900, "timeout_thorough": 3400}],
+    "fail_keys": ["c12."],
+    "trusted_base": MACHINE_TB,
+    "rule": HIST_RULE + "; plus a cycles run: N create/install/drop cycles in one process with 1-8 installs per cycle (mixed kinds, repeated targets), rwx anonymous mappings compared before/after and the shim's owned-mapping table empty",
+    "assumptions": ["freshness of trampoline mappings"],
+    "level_text": "Theorems C12_balance (any number of lifetimes: mapping set unchanged, no guard left) and C12_once (the drop's munmap calls are exactly the installs' mmap calls, each once, own address and length; installs unmap nothing). Correspondence: shim log of every mmap/munmap (foreign munmaps flagged), /proc/self/maps before and after, thousands of cycles.",
+    "level_note": "Trusted as for C02; the failing-install path (allocator) is C11's.",
+}
+TABLE["C17"] = {
+    "pipelines": [HIST_PIPE],
+    "fail_keys": ["c17."],
+    "trusted_base": MACHINE_TB,
+    "rule": HIST_RULE + "; C17 predicate on the implementation: each installed trampoline and entry range is covered by a __clear_cache call whose snapshot equals the final bytes; for every restored byte the last covering flush already holds the final value",
+    "assumptions": ["__clear_cache interposition sees every call the library makes (Linux path)"],
+    "level_text": "Theorem C17_covers: for every install history and either drop order the event log is flush-clean (at each return to the user no written byte is unflushed); per-operation versions for a single install and a single restore. Correspondence: the interposed __clear_cache records range and content at call time; the model must also predict the exact sequence of flush calls.",
+    "level_note": "x86-64 has coherent instruction caches, so only the call discipline is observable here; macOS path (sys_icache_invalidate in patch_function only) is not modelled.",
+}
